@@ -161,6 +161,7 @@ struct Dumper {
       O["k"] = "Construct";
       O["callee"] = callee(E->getConstructor());
       O["cls"] = ty(E->getType());
+      O["ccls"] = cty(E->getType());
       O["temporary"] = isa<CXXTemporaryObjectExpr>(S);
       O["elidable"] = E->isElidable();
       json::Array A;
@@ -231,7 +232,7 @@ struct Dumper {
       O["captures"] = std::move(CA);
       return std::move(O);
     }
-    if (auto *E = dyn_cast<InitListExpr>(S)) { O["k"] = "InitList"; kids(O); return std::move(O); }
+    if (auto *E = dyn_cast<InitListExpr>(S)) { O["k"] = "InitList"; O["ccls"] = cty(E->getType()); kids(O); return std::move(O); }
     if (auto *E = dyn_cast<UnresolvedLookupExpr>(S)) { O["k"] = "Unresolved"; O["name"] = E->getName().getAsString(); return std::move(O); }
     if (auto *E = dyn_cast<DependentScopeDeclRefExpr>(S)) { O["k"] = "Unresolved"; O["name"] = E->getDeclName().getAsString(); return std::move(O); }
     if (auto *E = dyn_cast<CXXUnresolvedConstructExpr>(S)) { O["k"] = "Construct"; O["cls"] = ty(E->getTypeAsWritten()); json::Array A; for (const Expr *Arg : E->arguments()) A.push_back(stmt(Arg)); O["args"] = std::move(A); json::Object CO; CO["name"] = "unresolved-ctor"; O["callee"] = std::move(CO); return std::move(O); }
